@@ -56,15 +56,15 @@ func (g BLSGroup) OnCurve(p WPoint) bool {
 	return lhs.Equal(rhs)
 }
 
-func wNeg(p WPoint) WPoint {
+func WNeg(p WPoint) WPoint {
 	if p.Inf {
 		return p
 	}
 	return WPoint{X: p.X, Y: BLSF.E2Neg(p.Y)}
 }
 
-// wAdd is the affine chord-and-tangent law for a = 0.
-func wAdd(p, q WPoint) WPoint {
+// WAdd is the affine chord-and-tangent law for a = 0.
+func WAdd(p, q WPoint) WPoint {
 	f := BLSF
 	if p.Inf {
 		return q
@@ -92,9 +92,9 @@ func wAdd(p, q WPoint) WPoint {
 func WMul(k *big.Int, p WPoint) WPoint {
 	acc := WPoint{Inf: true}
 	for i := k.BitLen() - 1; i >= 0; i-- {
-		acc = wAdd(acc, acc)
+		acc = WAdd(acc, acc)
 		if k.Bit(i) == 1 {
-			acc = wAdd(acc, p)
+			acc = WAdd(acc, p)
 		}
 	}
 	return acc
